@@ -7,6 +7,8 @@ import DateutilVerif.Proofs.RRuleStrErrors
 namespace RRuleStr
 open ICal (isSpace upper splitOnChar pyInt rstrip strip isDigit splitLines)
 
+variable {po : ParseOpts}
+
 /-- the seventeen names that have a `_handle_*` method -/
 def handledNames : List (List Char) :=
   [lit "INTERVAL", lit "COUNT", lit "BYSETPOS", lit "BYMONTH", lit "BYMONTHDAY", lit "BYYEARDAY", lit "BYEASTER",
@@ -20,19 +22,19 @@ def intListNames : List (List Char) :=
 def dayNames : List (List Char) := [lit "BYWEEKDAY", lit "BYDAY"]
 
 /-- a part fails in every state -/
-def StepFails (p : List Char) : Prop := ∀ a, stepPair a p = .error .ValueError
+def StepFails (po : ParseOpts) (p : List Char) : Prop := ∀ a, stepPair po a p = .error .ValueError
 
 theorem stepFails_of_handleU {p name value : List Char} {e : Py.PyErr} (hs : splitOnChar '=' p = [name, value])
-    (h : handleU (upper name) (upper value) = .error e) : StepFails p := by
+    (h : handleU po (upper name) (upper value) = .error e) : StepFails po p := by
   intro a; unfold stepPair; rw [hs]; simp only [handle, h]
 
 /-- a failing part anywhere in the list makes the whole loop fail with ValueError -/
-theorem foldlM_stepPair_fails {p : List Char} (hp : StepFails p) : ∀ (ps : List (List Char)) (a : RArgs),
-    p ∈ ps → ps.foldlM stepPair a = .error .ValueError
+theorem foldlM_stepPair_fails {p : List Char} (hp : StepFails po p) : ∀ (ps : List (List Char)) (a : RArgs),
+    p ∈ ps → ps.foldlM (stepPair po) a = .error .ValueError
   | [], _, h => by simp at h
   | q :: qs, a, h => by
     rw [List.foldlM_cons]
-    cases hq : stepPair a q with
+    cases hq : stepPair po a q with
     | error e => rw [stepPair_onlyVE a q e hq]; rfl
     | ok a' =>
       rcases List.mem_cons.mp h with rfl | h
@@ -40,7 +42,7 @@ theorem foldlM_stepPair_fails {p : List Char} (hp : StepFails p) : ∀ (ps : Lis
       · exact foldlM_stepPair_fails hp qs a' h
 
 theorem parseRRuleLine_fails {line value p : List Char} (hv : lineValue line = .ok value)
-    (hp : p ∈ splitOnChar ';' value) (hbad : StepFails p) : parseRRuleLine line = .error .ValueError := by
+    (hp : p ∈ splitOnChar ';' value) (hbad : StepFails po p) : parseRRuleLine po line = .error .ValueError := by
   unfold parseRRuleLine
   rw [hv]
   exact foldlM_stepPair_fails hbad _ _ hp
@@ -78,7 +80,7 @@ inductive BadPart : List Char → Prop
   | badDay (p name value item : List Char) (e : Py.PyErr) (hs : splitOnChar '=' p = [name, value]) (hn : upper name ∈ dayNames)
       (hi : item ∈ splitOnChar ',' (upper value)) (h : parseWDay item = .error e) : BadPart p
 
-theorem handleU_unknown (name value : List Char) (h : name ∉ handledNames) : handleU name value = .error .AttributeError := by
+theorem handleU_unknown (name value : List Char) (h : name ∉ handledNames) : handleU po name value = .error .AttributeError := by
   simp only [handledNames, List.mem_cons, List.not_mem_nil, or_false, not_or] at h
   obtain ⟨h1, h2, h3, h4, h5, h6, h7, h8, h9, h10, h11, h12, h13, h14, h15, h16⟩ := h
   unfold handleU
@@ -88,7 +90,7 @@ theorem intList_fails {value item : List Char} (hi : item ∈ splitOnChar ',' va
     ∃ e, intList value = .error e :=
   mapM_fails (f := int!) (e := .ValueError) (by simp [int!, h]) _ hi
 
-theorem badPart_fails {p : List Char} (h : BadPart p) : StepFails p := by
+theorem badPart_fails {p : List Char} (h : BadPart p) : StepFails po p := by
   cases h with
   | notPair h =>
     intro a; unfold stepPair; split
